@@ -55,7 +55,7 @@ let () =
     | [id; "S"; nu; cts; mans; opss; _] ->
       (* store-level model (Model/GraphStore.v, repaired gcIndex):
          P<n> Push, T<n> Tag, U<n> n loses its last tag name, X<n> delete, G<k.k.k> GC keeping the untagged manifests k,
-         O reopen, Y0/Y1 AutoSaveIndex off/on, W SaveIndex, F<r.r> foreign index + reopen, S observe (stored set, then Predecessors of every key) *)
+         O reopen, Y0/Y1 AutoSaveIndex off/on, W SaveIndex, F<r.r> foreign index + reopen, S observe (stored set, what index.json lists / lists under a name, Predecessors of every key), s the same without index.json *)
       (try
         let nu = int_of_string nu in
         let ct = parse_ct cts in
@@ -88,8 +88,13 @@ let () =
           | 'O' -> apply PReopen
           | 'Y' -> applya (ASetAuto (rest = "1"))
           | 'W' -> applya ASaveIndex
-          | 'S' ->
+          | 'S' | 's' ->
             toks := ("b:" ^ show_ints (List.map int_of_n !st.a_s.o_blobs)) :: !toks;
+            if t.[0] = 'S' then begin
+              let uniq l = List.sort_uniq compare (List.map int_of_n l) in
+              toks := ("i:" ^ show_ints (uniq (!st.a_s.o_dbydigest @ !st.a_s.o_dtagged))) :: !toks;
+              toks := ("t:" ^ show_ints (uniq !st.a_s.o_dtagged)) :: !toks
+            end;
             for i = 0 to nu - 1 do
               toks := ("p:" ^ show_raw (predecessors_raw !st.a_s.o_graph (n_of_int i))) :: !toks
             done
